@@ -55,7 +55,7 @@ theorem setter_frame (ext : Ext ℝ) (p : Path) (s : Setup ℝ) (v : ℝ)
     simp [setter, setterG, target, Outcome.map, asConfig, asConfigG, Config.setField, Crystal.toCfg,
       Beam.toCfg, Beam.setFrequency, Beam.setWavelength, Beam.setWaist, Beam.wavelength, thzToOmega,
       thz_wavelength, wl_roundtrip, deg_roundtrip, micro_roundtrip, nano_roundtrip,
-      pmPerVolt_roundtrip, kelvin_roundtrip, mw_roundtrip, setIdler, fieldRound]
+      pmPerVolt_roundtrip, toDeff_roundtrip, kelvin_roundtrip, mw_roundtrip, setIdler, fieldRound]
 
 /-- the frame rule is not vacuous: on a concrete base the rule gives an `ok` configuration -/
 example (ext : Ext ℝ) (s : Setup ℝ) (hs : WellFormed s) :
